@@ -57,6 +57,7 @@ func init() {
 			ruleReaderPath(r)
 			ruleWalkSkipsRoot(r)
 			ruleReaderBufferMinimum(r)
+			ruleBufferSizesBounded(r)
 			ruleCompactionNeedsInput(r)
 			ruleCtxAge(r, []string{"simpledb.executeCompaction", "sstables.SuperSSTableReader.Scan", "sstables.SuperSSTableReader.ScanStartingAt", "sstables.SuperSSTableReader.ScanRange"})
 			ruleGetPrecedence(r)
